@@ -10,7 +10,8 @@
 (*     FixF4 = TRUE: the flag is set first, then the informers are ranged. *)
 (*   namespace informer callback for a new namespace n:                    *)
 (*        NS_Create  create the informers of n; loadExistedObjects lists   *)
-(*                   the objects already in n into the cache (silently)    *)
+(*                   the objects already in n into the cache (silently;    *)
+(*                   FixF5 = TRUE: the callback forgets them again)        *)
 (*        NS_Store   store them in VaryingInformers                        *)
 (*        NS_Flag    read eventsEnabled, enable the new informers if set   *)
 (*        NS_Start   start them: client-go delivers Added for every object *)
@@ -20,7 +21,8 @@
 (***************************************************************************)
 EXTENDS Integers, Sequences, FiniteSets, TLC
 
-CONSTANTS NewNs, Objs, FixF4, MaxCreates
+CONSTANTS NewNs, Objs, FixF4, MaxCreates,
+          FixF5   \* TRUE: the callback forgets the preloaded objects of a new namespace (they arrive as Added)
 
 VARIABLES epc,        \* enabler: "idle" | "ranged" | "flagged" | "done"
           flag,       \* monitor.eventsEnabled
@@ -67,7 +69,7 @@ EN_Flag ==  /\ epc = (IF FixF4 THEN "idle" ELSE "ranged")
             /\ UNCHANGED <<npc, stored, enabledInf, cluster, preloaded, delivered, buffered, ncreate>>
 
 NS_Create(n) == /\ npc[n] = "none" /\ npc' = [npc EXCEPT ![n] = "created"]
-                /\ preloaded' = preloaded \cup {p \in cluster : p[1] = n}
+                /\ preloaded' = IF FixF5 THEN preloaded ELSE preloaded \cup {p \in cluster : p[1] = n}
                 /\ act' = <<"NS_Create", n>>
                 /\ UNCHANGED <<epc, flag, stored, enabledInf, cluster, delivered, buffered, ncreate>>
 NS_Store(n) ==  /\ npc[n] = "created" /\ npc' = [npc EXCEPT ![n] = "stored"] /\ stored' = stored \cup {n}
@@ -90,7 +92,7 @@ NS_Start(n) ==
 \* NS_Create+NS_Store and NS_Flag+NS_Start as pairs
 NS_CreateStore(n) ==
   /\ npc[n] = "none" /\ npc' = [npc EXCEPT ![n] = "stored"] /\ stored' = stored \cup {n}
-  /\ preloaded' = preloaded \cup {p \in cluster : p[1] = n}
+  /\ preloaded' = IF FixF5 THEN preloaded ELSE preloaded \cup {p \in cluster : p[1] = n}
   /\ act' = <<"NS_CreateStore", n>>
   /\ UNCHANGED <<epc, flag, enabledInf, cluster, delivered, buffered, ncreate>>
 NS_FlagStart(n) ==
